@@ -15,6 +15,7 @@ CONSTANTS MaxN,        \* bound on the number of node ids ever created
           Keys,        \* attribute / extras keys (strings)
           Ops,         \* which actions this instance enables (set of strings)
           MaxLevel,    \* states at this depth are not expanded (99 = unbounded for our instances)
+          NameVectors, \* InitMode "vectors": the name assignments to start from (set of sequences)
           InitMode     \* "all": MaxN detached nodes exist, every name assignment
                        \* "none": empty registry, nodes appear through Create/Copy/Import
                        \* "templates": the copy templates of MC_Copy
@@ -54,9 +55,13 @@ T4 == LET s == MkNodes(EmptyState, <<"a", "b", "b", "b", "b", "s">>)
 Templates == {T1, T2, T3, T4}
 ImportShapes == {<<0>>, <<0, 1, 1>>, <<0, 1, 2>>}   \* parent position of each node, in pre-order
 
+NoVectors    == {}
+Edit5Vectors == {<<"a", "a", "b", "a", "b">>, <<"a", "b", "a", "b", "a">>}      \* cfg: NameVectors <- Edit5Vectors
+
 Init ==
   /\ op = O("init", <<>>, NULL, TRUE)
   /\ CASE InitMode = "all"  -> \E nms \in [1..MaxN -> NameSet] : st = MkNodes(EmptyState, nms)
+       [] InitMode = "vectors" -> \E nms \in NameVectors : st = MkNodes(EmptyState, nms)
        [] InitMode = "none" -> st = EmptyState
        [] InitMode = "templates" -> st \in Templates
 
